@@ -931,9 +931,11 @@ where
             } => {
                 // Try to remove the victims from the cache (hash map).
                 for victim in victim_nodes {
-                    if let Some((_vic_key, vic_entry)) =
-                        self.cache.remove(unsafe { victim.as_ref().element.key() })
-                    {
+                    let vic_elem = &unsafe { victim.as_ref() }.element;
+                    // Remove the key only while it still maps to the victim's own entry.
+                    if let Some((_vic_key, vic_entry)) = self.cache.remove_if(vic_elem.key(), |_, v| {
+                        std::ptr::eq(&**v.entry_info(), vic_elem.entry_info())
+                    }) {
                         // And then remove the victim from the deques.
                         Self::handle_remove(deqs, vic_entry, counters);
                     } else {
@@ -1007,7 +1009,13 @@ where
                 next_victim = DeqNode::next_node_ptr(victim);
                 let vic_elem = &unsafe { victim.as_ref() }.element;
 
-                if let Some(vic_entry) = cache.get(vic_elem.key()) {
+                // The map entry must be the one this node belongs to. If the key was
+                // invalidated and inserted again, the node is a leftover of the old
+                // entry (its Remove op is still queued) and the map holds a new one.
+                if let Some(vic_entry) = cache
+                    .get(vic_elem.key())
+                    .filter(|e| std::ptr::eq(&**e.entry_info(), vic_elem.entry_info()))
+                {
                     victims.add_policy_weight(vic_entry.policy_weight());
                     victims.add_frequency(freq, vic_elem.hash());
                     victim_nodes.push(victim);
